@@ -5,7 +5,7 @@ import os
 ROOT = os.path.dirname(os.path.dirname(os.path.abspath(__file__)))
 
 HOOK_COMMITS = ["7a8ba4f"]
-FIX_COMMITS = ["5737839", "2d5e69c"]
+FIX_COMMITS = ["5737839", "2d5e69c", "bf43ee9"]
 
 CHECKS = {
     "C01": dict(
@@ -108,6 +108,16 @@ CHECKS["C03"] = dict(
          "double dagger) and sums of them.",
     note="Trusted: TLC, the projection. Data payloads from a finite menu.",
     ref="5/C03", technique="TLA+ spec + TLC-generated pairs and paths, trace validation of recorded comparisons")
+
+CHECKS["C18"] = dict(
+    text="Grammar.tla: pregroup parsing as a Contract(i) machine (TLC checks that the eager strategy only ever "
+         "records legal reductions, over all sentences of bounded length); derivations of a CFG; the biclosed-to-"
+         "rigid object map ToRigid on nested slash types. Real eager_parse/brute_force results are replayed as "
+         "Contract events, generated sentences are judged as derivations, and for every rule instance generated "
+         "by MC_Biclosed (composite left/right sides, curried boxes) and CCG trees rendered from them the image "
+         "under biclosed2rigid must be well-typed with the images of domain and codomain (J18).",
+    note="Trusted: TLC, projections of rigid diagrams and of nested biclosed types. CFG menu lives in the harness.",
+    ref="5/C18", technique="TLA+ spec + TLC-generated sentences and rule instances, trace validation")
 
 NOT_YET = {}
 
